@@ -324,8 +324,56 @@ def rule_pure(repo):
     return res
 
 
+@guarded
+def rule_snap(repo):
+    """set_refpoint freezes a reference point.  The clock is ONE tensor that the forward hook advances in place (_t.add_(1)) and that reset /
+    systime assignment overwrite in place (copy_/fill_): a reference time taken from it must be a copy (clone), otherwise the stored
+    reference time moves with every later call while f(x*, u*, t*) and g(x*, u*, t*) stay those of the old time."""
+    res = RuleResult('C15.SNAP', 'NLS.set_refpoint stores a snapshot of the clock as reference time: no alternative of the stored value is the live '
+                     'clock buffer itself (self.systime / self._t without clone())', floor=1)
+    f = repo.func(DYN, 'NLS.set_refpoint')
+
+    def alternatives(e):
+        if isinstance(e, ast.IfExp):
+            return alternatives(e.body) + alternatives(e.orelse)
+        return [e]
+    n = 0
+    for a in ast.walk(f.node):
+        if not isinstance(a, ast.Assign):
+            continue
+        tg = [t for t in a.targets]
+        elts = []
+        for t in tg:
+            if isinstance(t, ast.Tuple) and isinstance(a.value, ast.Tuple) and len(t.elts) == len(a.value.elts):
+                elts += list(zip(t.elts, a.value.elts))
+            else:
+                elts.append((t, a.value))
+        for t, v in elts:
+            if dotted(t) != 'self._ref_t':
+                continue
+            # follow a local name one step
+            if isinstance(v, ast.Name):
+                defs = [x.value for x in ast.walk(f.node) if isinstance(x, ast.Assign) and any(isinstance(y, ast.Name) and y.id == v.id for y in x.targets)]
+                v = defs[-1] if defs else v
+            for alt in alternatives(v):
+                n += 1
+                core = alt
+                while isinstance(core, ast.Call) and isinstance(core.func, ast.Attribute) and core.func.attr in ('detach', 'view', 'reshape', 'squeeze', 'unsqueeze', 'to') \
+                        or (isinstance(core, ast.Call) and (dotted(core.func) or '').split('.')[-1] in ('atleast_1d', 'as_tensor') and core.args):
+                    core = core.func.value if isinstance(core.func, ast.Attribute) and not (dotted(core.func) or '').startswith('torch.') else core.args[0]
+                live = dotted(core) in ('self.systime', 'self._t')
+                res.inst({'function': f.fq, 'reference time alternative': src(alt)[:50], 'is the live clock buffer': live}, src(alt))
+                if live:
+                    res.add(Finding('C15.SNAP', f, 'the reference time `%s` IS the clock buffer (no clone): the forward hook advances it in place, so after '
+                                    'the next call A, B, C, D are linearised at another time than the stored f(x*, u*, t*), g(x*, u*, t*)' % src(alt)[:50],
+                                    node=a, construct='live clock as reference time'))
+    if n == 0:
+        raise AnalysisError('C15.SNAP: NLS.set_refpoint no longer assigns self._ref_t')
+    return res
+
+
 def _rules_core(repo, tier):
-    return [rule_own_hook(repo), rule_super(repo), rule_lin(repo), rule_eq(repo), rule_pure(repo)]
+    return [rule_own_hook(repo), rule_super(repo), rule_lin(repo), rule_eq(repo), rule_pure(repo), rule_snap(repo)]
 
 
 def rules(repo, tier):
